@@ -82,8 +82,9 @@ def run(ctx):
 
 def _detect_hdr_rx(ctx):
     """Every 1- and 2-bit corruption of the 40 header bits, replayed on the real receiver in two situations: on a
-    fresh receiver, and directly behind the intact frame itself (a decoder that remembers anything about the header it
-    validated last must not let a damaged repetition through).  The damaged frame is never acknowledged nor delivered."""
+    fresh receiver, directly behind the intact frame itself (a decoder that remembers anything about the header it
+    validated last must not let a damaged repetition through), and behind a frame with an intact header and a damaged body
+    (whole, in two reads, cut inside).  The damaged frame is never acknowledged nor delivered."""
     import itertools
     import rxworld
     import streams
@@ -103,6 +104,13 @@ def _detect_hdr_rx(ctx):
             break
     frames += [low[w] for w in sorted(low)]
     allpairs = list(itertools.combinations(range(40), 2))
+    # a frame whose header is intact and whose body is damaged (no 0xDE inside, so that nothing in it looks like a start):
+    # the receiver drops it - and must not carry "the header was fine" over to whatever comes next
+    bad = bytearray(streams.raw_frame(0xC0 | (r.randrange(4) << 2), bytes(r.choice([1, 2, 3, 0x55, 0xAA, 0x7F]) for _ in range(30))))
+    bad[-1] ^= 0x10
+    bad = bytes(bad)
+    bad_alone, _f, _r = rxworld.session([bad])
+    bad_base = [x[:1] for o in bad_alone if o != "." for x in o.split(",")]
     for fi, good in enumerate(frames):
         pats = [(a,) for a in range(40)] + (allpairs if ctx.thorough() else r.sample(allpairs, 160))
         ones = [32 + k for k in range(8) if good[6] >> k & 1]
@@ -119,10 +127,12 @@ def _detect_hdr_rx(ctx):
             b = bytearray(good)
             for bit in pat:
                 b[2 + bit // 8] ^= 1 << (bit % 8)
-            for label, chunks in (("fresh", [bytes(b)]), ("behind-intact", [good + bytes(b)]), ("behind-intact-2reads", [good, bytes(b)])):
+            for label, chunks in (("fresh", [bytes(b)]), ("behind-intact", [good + bytes(b)]), ("behind-intact-2reads", [good, bytes(b)]),
+                                  ("behind-damaged-body", [bad + bytes(b)]), ("behind-damaged-body-2reads", [bad, bytes(b)]),
+                                  ("behind-damaged-body-cut", [bad[:12], bad[12:], bytes(b)])):
                 outs, final, raised = rxworld.session(chunks)
                 log = [x[:1] for o in outs if o != "." for x in o.split(",")]
-                want = [] if label == "fresh" else base
+                want = [] if label == "fresh" else (bad_base if label.startswith("behind-damaged") else base)
                 ctx.case(("hdr-rx", fi, pat, label), sample=dict(frame=hx(good)[:28], bits=list(pat), situation=label))
                 ctx.count("hdr-rx-" + label)
                 if b[6] == 0:
